@@ -94,6 +94,43 @@ pub mod io {
             real::io::write(fd, buf)
         }
     }
+
+    /// Gather write: to the simulated kernel it is one write of the concatenation (which,
+    /// like any write, may be accepted only in part)
+    #[inline]
+    pub fn writev<Fd: AsFd>(fd: Fd, bufs: &[std::io::IoSlice<'_>]) -> Result<usize> {
+        if crate::sim::is_sim(fd.as_fd().as_raw_fd()) {
+            let mut all = Vec::new();
+            for buf in bufs {
+                all.extend_from_slice(buf);
+            }
+            crate::sim::with(|h| h.write(&all))
+        } else {
+            real::io::writev(fd, bufs)
+        }
+    }
+
+    /// Scatter read: one read into a buffer of the total size, distributed over the slices
+    #[inline]
+    pub fn readv<Fd: AsFd>(fd: Fd, bufs: &mut [std::io::IoSliceMut<'_>]) -> Result<usize> {
+        if crate::sim::is_sim(fd.as_fd().as_raw_fd()) {
+            let total: usize = bufs.iter().map(|b| b.len()).sum();
+            let mut all = vec![0u8; total];
+            let n = crate::sim::with(|h| h.read(&mut all))?;
+            let mut done = 0;
+            for buf in bufs.iter_mut() {
+                let take = buf.len().min(n - done);
+                buf[..take].copy_from_slice(&all[done..done + take]);
+                done += take;
+                if done == n {
+                    break;
+                }
+            }
+            Ok(n)
+        } else {
+            real::io::readv(fd, bufs)
+        }
+    }
 }
 
 pub mod event {
